@@ -24,11 +24,12 @@ MIN_NONTRIVIAL = {"quick": 20_000, "thorough": 1_000_000}
 
 
 def shards(tier):
-    return [{"kind": "dfs", "i": i, "n": 16} for i in range(16)] + [{"kind": "hist", "i": i} for i in range(4)] + [{"kind": "relay", "i": i} for i in range(2)]
+    return ([{"kind": "dfs", "i": i, "n": 16} for i in range(16)] + [{"kind": "hist", "i": i} for i in range(4)] + [{"kind": "relay", "i": i} for i in range(2)]
+            + [{"kind": "tall", "base": 300}, {"kind": "tall", "base": 127}])
 
 
 class Dfs:
-    def __init__(self, res, nmax):
+    def __init__(self, res, nmax, base=0):
         env.import_repo()
         from skepticoin import datatypes as D, signing as S
         from skepticoin.coinstate import CoinState
@@ -51,6 +52,15 @@ class Dfs:
         self.states = 0
         self.visited = 0
         self.nontrivial = 0
+        # "tall" variant: the histories start on top of a straight chain of `base` blocks (heights beyond 256, beyond one octet),
+        # and new blocks attach to its last two blocks or to each other
+        self.base = 0
+        if base:
+            cs = self.cs0
+            for _ in range(base):
+                cs = self.step(cs, len(self.parent) - 1)
+            self.cs0 = cs
+            self.base = base
 
     def mk(self, pi):
         D, S = self.D, self.S
@@ -109,6 +119,10 @@ class Dfs:
                 self.nontrivial += 1
 
     def bad(self, kind, sig, msg):
+        if self.base:
+            self.res.fail(kind, sig + ":tall", msg + " after a straight chain of %d blocks and then parents=%s (arrival numbers)" % (self.base, self.parent[1 + self.base:]),
+                          {"parents": list(self.parent[1 + self.base:]), "base": self.base})
+            return
         self.res.fail(kind, sig, msg + " after history parents=%s" % (self.parent[1:],), {"parents": list(self.parent[1:])})
 
     def step(self, cs, pi):
@@ -134,10 +148,10 @@ class Dfs:
 
     def rec(self, cs, ties):
         n = len(self.parent)
-        if n - 1 >= self.nmax:
+        if n - 1 - self.base >= self.nmax:
             return
         mh = max(self.height)
-        for pi in range(n):
+        for pi in range(max(0, self.base - 1) if self.base else 0, n):
             t2 = ties or self.height[pi] + 1 == mh           # the new block ties the current maximal height
             cs2 = self.step(cs, pi)
             self.check(cs2, cs, t2)
@@ -167,8 +181,8 @@ def prefixes(depth):
     return out
 
 
-def replay_parents(parents, res):
-    d = Dfs(res, len(parents))
+def replay_parents(parents, res, base=0):
+    d = Dfs(res, len(parents), base)
     cs = d.cs0
     ties = False
     for pi in parents:
@@ -290,6 +304,15 @@ def run(shard, tier, seed):
 
         prop()
         return res
+    if shard["kind"] == "tall":
+        nmax = 5 if tier == "quick" else 7
+        d = Dfs(res, nmax, base=shard["base"])
+        d.rec(d.cs0, False)
+        res.evaluations = d.visited
+        res.disjoint = d.nontrivial
+        res.count("tall_states_visited", d.visited)
+        res.sample({"tall": "all arrival histories of <= %d blocks on top of a straight chain of %d, attaching to its last two blocks or to each other" % (nmax, shard["base"])})
+        return res
     if shard["kind"] == "dfs":
         nmax = 8 if tier == "quick" else 10
         d = Dfs(res, nmax)
@@ -348,7 +371,7 @@ def _fact(k):
 def replay(case):
     if "parents" in case:
         res = Result()
-        replay_parents(case["parents"], res)
+        replay_parents(case["parents"], res, case.get("base", 0))
         return res.failures
     if case.get("relay"):
         return replay_relay(case)
